@@ -60,6 +60,8 @@ def value(code, k):
         n = (k % 200) + 1
         sign = 0x80 if k % 3 == 2 else 0
         by = bytes([0x42 | sign, n, 0, 0])
+        if k % 9 == 8:      # beyond both ends of the IEEE single range that the array holds the value in (7.2e75, 5.4e-79, a single denormal)
+            by = [b'\x7f\xff\xff\xff', b'\x00\x10\x00\x00', b'\xff\xff\xff\xff', b'\x21\x10\x00\x00'][(k // 9) % 4]
         return by, float(R.isingl_exact(by))
     if code == 6:
         n = (k % 200) + 1
@@ -393,8 +395,12 @@ def channel_sets(chans):
         for sub in itertools.combinations(names, r):
             yield list(sub)
     yield ['NOPE']
+    # as many (and more) names as the frame type has channels, not all of them its own: one selection is handed to every frame type
+    yield ['NOPE', 'NOPE2', 'NOPE3'][:len(chans)]
+    yield ['NOPE', 'NOPE2', 'NOPE3', 'NOPE4']
     if names:
         yield [names[0], 'NOPE']
+        yield [names[0], 'NOPE', 'NOPE2']
 
 
 def run_ops(lp, ops, res, shape):
